@@ -43,7 +43,8 @@ theorem C01FO_ground_rules_spec (P : FOProgram) (r : Sem.Rule) :
     r ∈ (ground P).rules ↔
       ∃ si s k vals hi ph alt, P.stmts[si]? = some s ∧ (tuples P.consts s.vars.length)[k]? = some vals ∧
         s.heads[hi]? = some ph ∧ List.Forall₂ LitSel s.body alt ∧ r = instance_ P si s k vals hi ph alt := by
-  unfold ground groundSym
+  rw [ground_rules]
+  unfold groundSym
   simp only [List.mem_map, mem_groundStmts_rules, mem_groundStmt_rules, mem_groundInst, mem_expandOr]
   constructor
   · rintro ⟨sr, ⟨si, s, hs, k, vals, hv, hi, ph, alt, hh, halt, rfl⟩, rfl⟩
@@ -85,7 +86,8 @@ theorem C01FO_groups_spec (P : FOProgram) (g : Sem.Group) :
     g ∈ (ground P).groups ↔
       ∃ si s k vals, P.stmts[si]? = some s ∧ s.isProb = true ∧
         (tuples P.consts s.vars.length)[k]? = some vals ∧ g = groupInst s (offset P si) k := by
-  unfold ground groundSym
+  rw [ground_groups]
+  unfold groundSym
   simp only [mem_groundStmts_groups, mem_groundStmt_groups]
   constructor
   · rintro ⟨si, s, hs, hp, k, vals, hv, rfl⟩; exact ⟨si, s, k, vals, hs, hp, hv, rfl⟩
